@@ -407,6 +407,7 @@ theorem step_showInv {env : Env} (hv : env.v.fixReturn = true) (hinj : HashInj e
   | prune => exact same rfl
   | litter j c => exact same rfl
   | litterBlob k c => exact same rfl
+  | litterMan p => exact same rfl
   | create r => exact createAt_showInv hv hinj hb hs r _ _
   | pull t reg served =>
     refine showInv_of hs (fun n m hm => ?_)
@@ -445,8 +446,11 @@ theorem step_showInv {env : Env} (hv : env.v.fixReturn = true) (hinj : HashInj e
       split at hm
       · exact Or.inl hm
       · exact Or.inl hm
-      · rw [man_congr (removeLayers_mans _ _ _), delManifest_man] at hm
-        simp at hm
+      · rw [man_congr (removeLayers_mans _ _ _)] at hm
+        have hm' : (delManifest st (resolveName env st ch.ord1 t)).man (resolveName env st ch.ord1 t) =
+            some (.readable m) := hm
+        rw [delManifest_man] at hm'
+        simp at hm'
     · exact Or.inl (by rw [← frame n (by simp [targets, hn])]; exact hm)
   | plant s d =>
     refine showInv_of hs (fun n m hm => ?_)
